@@ -23,6 +23,33 @@ def mono():
     return time.monotonic_ns()
 
 
+class LoadMonitor(threading.Thread):
+    """Heartbeat: sleeps 5 ms at a time and remembers scheduling gaps; a timing rule is only a verdict on a healthy machine."""
+
+    def __init__(self):
+        super().__init__(daemon=True)
+        self.gaps = []  # (t_end_ns, gap_ns) for gaps > 50 ms
+        self.lock = threading.Lock()
+
+    def run(self):
+        last = mono()
+        while True:
+            time.sleep(0.005)
+            now = mono()
+            if now - last > 50e6:
+                with self.lock:
+                    self.gaps.append((now, now - last))
+                    del self.gaps[:-500]
+            last = now
+
+    def max_gap_ms(self, since_ns):
+        with self.lock:
+            return max([g for t, g in self.gaps if t >= since_ns] + [0]) / 1e6
+
+
+LOAD = LoadMonitor()
+
+
 class Report:
     def __init__(self):
         self.evaluations = 0
@@ -267,13 +294,18 @@ def c05_scenario(rep, rng, scratch, idx):
         template = "midrun"
     if template == "three-step" and mode not in ("queue", "restart"):
         template = "midrun"
-    stop_timeout = rng.choice([300, 500])
+    stop_timeout = rng.choice([300, 500, 300, 500, 0]) if mode == "restart" else rng.choice([300, 500])
     debounce = rng.choice([20, 40])
     flags = list(MODES[mode_name]) + ["--debounce", "%dms" % debounce, "--stop-timeout", "%dms" % stop_timeout]
     stop_sig = None
     if rng.random() < 0.4 and mode in ("restart", "signal") and "--signal" not in flags:
         stop_sig = rng.choice([("SIGUSR2", 12), ("SIGINT", 2), ("SIGHUP", 1)])
         flags += ["--stop-signal", stop_sig[0]]
+    mapped = None
+    if rng.random() < 0.2:
+        # one of the two quit signals is mapped to something harmless: the other one must still quit watchexec
+        mapped = rng.choice(["TERM", "INT"])
+        flags += ["--map-signal", "%s:USR2" % mapped]
     postpone = template == "postpone" or rng.random() < 0.15
     if postpone:
         flags.append("--postpone")
@@ -300,9 +332,13 @@ def c05_scenario(rep, rng, scratch, idx):
     name = "c05-%d" % idx
     wx = Wx(scratch, name, flags, child)
     desc = {"mode": mode_name, "template": template, "child": child_kind, "stop_timeout_ms": stop_timeout, "debounce_ms": debounce,
-            "postpone": postpone, "delay_run_ms": delay, "stop_signal": stop_sig[0] if stop_sig else None, "run_ms": run_ms}
+            "postpone": postpone, "delay_run_ms": delay, "stop_signal": stop_sig[0] if stop_sig else None, "run_ms": run_ms, "mapped_signal": mapped}
     V = []  # (sig, what)
     INC = []
+    t_scn = mono()
+    # rules that rest on "watchexec reacted within the margin" are verdicts only without scheduling stalls
+    TIMING = ("C05/idle-change/extra-runs", "C05/more-runs-than-causes", "C05/do-nothing/extra-run", "C05/queue/not-exactly-one",
+              "C05/signal/started-during-run", "C05/signal/not-delivered", "C05/restart/no-stop-signal")
     try:
         if not inotify_ready(wx.p.pid):
             INC.append("watchexec-not-ready")
@@ -343,8 +379,11 @@ def c05_scenario(rep, rng, scratch, idx):
                 if s["t"] < tb:
                     INC.append("start-before-change")
                 time.sleep(run_ms / 1000.0 + 0.3 + debounce / 1000.0)
-                if len(wx.starts()) != n0 + 1:
-                    V.append(("C05/idle-change/extra-runs", "one change burst while idle caused %d runs" % (len(wx.starts()) - n0)))
+                tight = (ta - tb) / 1e6 < debounce / 2.0
+                nfiles = wx.changes[-1][2]
+                caused = len(wx.starts()) - n0
+                if (tight and caused != 1) or caused > nfiles:
+                    V.append(("C05/idle-change/extra-runs", "one change burst (%d files written within %.0f ms) while idle caused %d runs" % (nfiles, (ta - tb) / 1e6, caused)))
         elif template == "delay-run":
             # two bursts inside the delay of the first: the second action meets a job that is about to start
             time.sleep(run_ms / 1000.0 + 0.4 if not postpone else 0.1)
@@ -424,7 +463,7 @@ def c05_scenario(rep, rng, scratch, idx):
                     rs = runs_of(wx.lines())
                     me = [r for r in rs if r["pid"] == r0["pid"]][0]
                     if definite:
-                        if not any(s == busy_sig for t, s in me["signals"]):
+                        if stop_timeout >= 100 and not any(s == busy_sig for t, s in me["signals"]):
                             V.append(("C05/restart/no-stop-signal", "a change during the run did not deliver the stop signal %d before restarting" % busy_sig))
                         if not ok:
                             V.append(("C05/restart/no-new-run", "a change during the run was not followed by a fresh run"))
@@ -484,8 +523,9 @@ def c05_scenario(rep, rng, scratch, idx):
         for r in rs[:-1]:
             if r["exit"] is None and not r["signals"] and not proc_alive(r["pid"]):
                 V.append(("C05/%s/run-killed-without-signal" % mode, "run pid %d disappeared without an exit line and without having been signalled" % r["pid"]))
-        if len(rs) > 1 + len(wx.changes) + (0 if not postpone else 0):
-            V.append(("C05/more-runs-than-causes", "%d runs for %d change bursts (+1 initial)" % (len(rs), len(wx.changes))))
+        nwrites = sum(c[2] for c in wx.changes)
+        if len(rs) > 1 + nwrites:
+            V.append(("C05/more-runs-than-causes", "%d runs for %d file writes (+1 initial)" % (len(rs), nwrites)))
         rep.count("runs_observed", len(rs))
         rep.count("change_bursts", len(wx.changes))
         rep.count("signals_seen_by_commands", sum(len(r["signals"]) for r in rs))
@@ -493,6 +533,13 @@ def c05_scenario(rep, rng, scratch, idx):
             rep.count("bursts_within_5ms_of_a_run_end", 1)
     finally:
         pass
+    gap = LOAD.max_gap_ms(t_scn)
+    if gap > 120:
+        kept = [v for v in V if v[0] not in TIMING]
+        if len(kept) != len(V):
+            rep.inc("timing-rule-on-stalled-machine")
+            desc["stalled_ms"] = round(gap)
+        V[:] = kept
     return desc, wx, V, INC
 
 
@@ -504,6 +551,10 @@ def c08_cli_tail(rep, rng, wx, desc, V):
     # only runs that are definitely in progress: started >= 200 ms ago and with >= 500 ms to go by themselves
     running = [r for r in rs if r["exit"] is None and proc_alive(r["pid"]) and now - r["start"] > 200e6 and r["start"] + run_ns - now > 500e6]
     sig = rng.choice([signal.SIGINT, signal.SIGTERM])
+    if desc.get("mapped_signal") == "TERM":
+        sig = signal.SIGINT
+    elif desc.get("mapped_signal") == "INT":
+        sig = signal.SIGTERM
     stop_timeout = desc.get("stop_timeout_ms", 300)
     t0, took = wx.shutdown(sig, timeout=stop_timeout / 1000.0 + 6.0)
     rep.count("cli_shutdowns", 1)
@@ -785,6 +836,7 @@ def main():
     if not any(l["ev"] == "start" for l in read_log(st)) or not os.access(WATCHEXEC, os.X_OK):
         sys.stderr.write("wxcli: helper self-test failed or %s is missing: harness error\n" % WATCHEXEC)
         sys.exit(3)
+    LOAD.start()
     deadline = time.time() + o["budget"]
     idx = [0]
     lock = threading.Lock()
